@@ -130,8 +130,15 @@ func c20Scenario(maxLen int) *explore.Scenario {
 			srvKind := x.Choose("server", 3)
 			srv13 := srvKind >= 1
 			var seq []c20Op
+			bare, bareChosen := false, false
 			for i := 0; i < maxLen; i++ {
 				o := c20Op(x.Choose("op", int(opCount)))
+				if o == opSetState && !bareChosen {
+					// the forged state carries the certificates and chains of the original session, or — as
+					// examples/old does — nothing but ticket, version, suite and master secret
+					bareChosen = true
+					bare = x.Choose("forged-state-without-certificates", 2) == 1
+				}
 				seq = append(seq, o)
 				if o == opHandshake {
 					break
@@ -151,6 +158,9 @@ func c20Scenario(maxLen int) *explore.Scenario {
 				return
 			}
 			what := fmt.Sprintf("spec=%s cache-at-construction=%v server13=%v calls=%v", k.name, cacheAtStart, srv13, names)
+			if bare {
+				what += " forged-state-without-certificates"
+			}
 			if srvKind == 2 {
 				what += " server-suite=TLS_CHACHA20_POLY1305_SHA256 (the session's is another SHA-256 suite)"
 			}
@@ -184,6 +194,9 @@ func c20Scenario(maxLen int) *explore.Scenario {
 						err = u.SetSessionTicketExtension(&tls.SessionTicketExtension{Session: m12.state, Ticket: m12.ticket, Initialized: true})
 					case opSetState:
 						f := tls.MakeClientSessionState(m12.css.SessionTicket(), m12.css.Vers(), m12.css.CipherSuite(), m12.css.MasterSecret(), m12.css.ServerCertificates(), m12.css.VerifiedChains())
+						if bare {
+							f = tls.MakeClientSessionState(m12.css.SessionTicket(), m12.css.Vers(), m12.css.CipherSuite(), m12.css.MasterSecret(), nil, nil)
+						}
 						f.SetEMS(m12.css.EMS())
 						err = u.SetSessionState(f)
 					case opSetPsk:
